@@ -4,6 +4,8 @@ import (
 	"fmt"
 	"math"
 	"math/rand"
+	"strings"
+	"sync"
 
 	"github.com/pion/transport/v3/vnet"
 	"verifharness/internal/res"
@@ -13,7 +15,7 @@ import (
 // C16: loss filter. Oracle: chance<=0 forwards all, >=100 none, else dropped count within 6 sigma of n*p;
 // forwarded chunks are an in-order, duplicate-free, unmodified subsequence of the injected ones.
 func runLoss(tier string, seed int64, shard, nshard int, r *res.Result) {
-	r.Rule = "streams of n datagrams (sizes 0..1500, unique ids) injected into a LossFilter in front of a recording sink NIC; chances incl. out-of-range values; oracle: deterministic ends, 6-sigma binomial bound in between for the whole stream and for every k-th-datagram sub-stream (k = 2,3,4,5,8: what one of k interleaved flows sees), forwarded = in-order duplicate-free unmodified subsequence (same chunk object, same addresses, same payload hash); the same for 12 pairs of loss filters in series (incl. out-of-range chances); distinct = (chance, stream) pairs"
+	r.Rule = "streams of n datagrams (sizes 0..1500, unique ids) injected into a LossFilter in front of a recording sink NIC; chances incl. out-of-range values; oracle: deterministic ends, 6-sigma binomial bound in between for the whole stream and for every k-th-datagram sub-stream (k = 2,3,4,5,8: what one of k interleaved flows sees), forwarded = in-order duplicate-free unmodified subsequence (same chunk object, same addresses, same payload hash); the same for 12 pairs of loss filters in series and for six filters used at the same time from six goroutines (incl. out-of-range chances); distinct = (chance, stream) pairs"
 	r.Assumptions = []string{"math/rand global source cannot be seeded from outside: verdict for 0<chance<100 is statistical (false-alarm probability about 2e-9 per stream or sub-stream, 23 bounds per chance value)"}
 	// every chance value 0..100 plus out-of-range ones: a bias may exist for particular values only
 	chances := []int{-5, 101, 250}
@@ -199,6 +201,73 @@ func runLoss(tier string, seed int64, shard, nshard int, r *res.Result) {
 			tol := 6*math.Sqrt(float64(ns)*p*(1-p)) + 1
 			if dev := math.Abs(float64(dropped) - float64(ns)*p); dev > tol {
 				r.Violate("loss:stacked:rate", fmt.Sprintf("chance %d over %d dropped %d of %d (expected %.0f +- %.0f)", pr[0], pr[1], dropped, ns, float64(ns)*p, tol), w)
+			}
+		}
+	}
+
+	// several loss filters used at the same time from different goroutines (each its own stream and sink), as when several
+	// links of a topology are lossy: every stream obeys its own filter's chance
+	{
+		chs := []int{50, 50, 20, 80, 0, 100, 30, 70}
+		nc := 500000
+		type cres struct {
+			fwd, n int
+			bad    string
+		}
+		outc := make([]cres, len(chs))
+		var cwg sync.WaitGroup
+		for fi, ch := range chs {
+			cwg.Add(1)
+			go func(fi, ch int) {
+				defer cwg.Done()
+				defer func() {
+					if p := recover(); p != nil {
+						outc[fi].bad = fmt.Sprintf("panic: %v", p)
+					}
+				}()
+				var last uint64
+				fwd := 0
+				bad := ""
+				sink := &vnet.VerifNIC{OnChunk: func(c vnet.Chunk) {
+					id := vn.PayloadID(c.UserData())
+					if id <= last {
+						bad = fmt.Sprintf("datagram %d forwarded after %d (reordered or duplicated)", id, last)
+					}
+					last = id
+					fwd++
+				}}
+				f, err := vnet.NewLossFilter(sink, ch)
+				if err != nil {
+					outc[fi].bad = err.Error()
+					return
+				}
+				for i := 0; i < nc; i++ {
+					vnet.VerifInject(f, vnet.VerifNewChunkUDP(vn.UDP("10.0.0.1", 1000+fi), vn.UDP("10.0.0.2", 2000), vn.Payload(uint64(i+1), 8)))
+				}
+				outc[fi] = cres{fwd, nc, bad}
+			}(fi, ch)
+		}
+		cwg.Wait()
+		r.Eval(1)
+		r.Count("concurrent_filter_streams", int64(len(chs)))
+		for fi, ch := range chs {
+			o := outc[fi]
+			w := map[string]interface{}{"phase": "concurrent filters", "chance": ch, "n": nc}
+			p := float64(ch) / 100
+			dropped := o.n - o.fwd
+			switch {
+			case strings.HasPrefix(o.bad, "panic"):
+				r.Violate("loss:concurrent:panic", fmt.Sprintf("filter %d (chance %d) next to %d others: %s", fi, ch, len(chs)-1, o.bad), w)
+			case o.bad != "":
+				r.Violate("loss:concurrent:not-subsequence", fmt.Sprintf("filter %d (chance %d) next to %d others: %s", fi, ch, len(chs)-1, o.bad), w)
+			case ch <= 0 && dropped != 0:
+				r.Violate("loss:concurrent:dropped-at-0", fmt.Sprintf("chance %d dropped %d of %d while other filters were in use", ch, dropped, o.n), w)
+			case ch >= 100 && o.fwd != 0:
+				r.Violate("loss:concurrent:forwarded-at-100", fmt.Sprintf("chance %d forwarded %d of %d while other filters were in use", ch, o.fwd, o.n), w)
+			case ch > 0 && ch < 100:
+				if tol := 6*math.Sqrt(float64(o.n)*p*(1-p)) + 1; math.Abs(float64(dropped)-float64(o.n)*p) > tol {
+					r.Violate("loss:concurrent:rate", fmt.Sprintf("chance %d dropped %d of %d (expected %.0f +- %.0f) while %d other filters were in use from other goroutines", ch, dropped, o.n, float64(o.n)*p, tol, len(chs)-1), w)
+				}
 			}
 		}
 	}
